@@ -284,6 +284,7 @@ func connectiveExprs() []any {
 	// two DIFFERENT paths whose joined display strings coincide (a["a.a"] vs a.a.a, a["a/a"] vs a.a.a): a memo keyed by the
 	// rendered selector would confuse them inside one expression
 	atoms = append(atoms, &Match{Sel: []string{"a", "a.a"}, Op: OpEq, Lit: "1"}, &Match{Sel: []string{"a", "a/a"}, Op: OpEq, Lit: "2"}, &Match{Sel: []string{"a", "a", "a"}, Op: OpEq, Lit: "3"})
+	atoms = append(atoms, &Quant{All: false, Sel: []string{"a"}, Mode: BindBoth, Idx: "k", Val: "k", Body: &Match{Sel: []string{"b"}, Op: OpEq, Lit: "1"}})
 	for _, a := range atoms {
 		out = append(out, &Not{X: a})
 		for _, b := range atoms {
